@@ -584,8 +584,8 @@ Section Pipeline.
     end.
 
   (* KustTarget.IgnoreLocal: DropLocalNodes (GetValidatedMetadata of every non-empty document, then the
-     local-config annotation), Factory.FromResourceSlice of what is kept - which PANICS on an id collision -
-     and ResAccumulator.Intersection: every resource whose id (compared with ==) is not among the kept ones is
+     local-config annotation), Append of what is kept to a fresh ResMap - an id collision is an ERROR
+     (/repo 66fde0c; it was a panic in Factory.FromResourceSlice) - and ResAccumulator.Intersection: every resource whose id (compared with ==) is not among the kept ones is
      Removed, and Remove fails unless exactly one resource carries that id *)
   Definition resid_raw_eqb (a b : resid) : bool :=
     String.eqb (id_name a) (id_name b) && String.eqb (id_ns a) (id_ns b) &&
@@ -619,7 +619,8 @@ Section Pipeline.
     match append_all pipe_cs [] kept with
     | Ok _ => remove_loop (map (cur_id pipe_cs) m) (map (cur_id pipe_cs) kept) m
     | Diverge => Diverge
-    | _ => Panic                                   (* FromResourceSlice: panic(err) *)
+    | _ => Err                                     (* Append of the kept resources: the id conflict is an error
+                                                      (/repo 66fde0c; Factory.FromResourceSlice used to panic) *)
     end.
 
   (* krusty.Run (default options, no buildMetadata, default openapi) *)
